@@ -190,12 +190,12 @@ theorem asymCond_eq (d p q : Nat) (s : List Nat) :
 
 /-! ### membership in `asymErrorSet` -/
 
-theorem mem_asymErrorSet (n d p q : Nat) (e : List (Nat × Nat)) :
-    e ∈ asymErrorSet n d p q ↔ ∃ ix iy iz : List Nat, TripleOk n ix iy iz ∧ e = triple ix iy iz
+theorem mem_asymErrorSetB (n d : Nat) (bound : Nat → Nat) (e : List (Nat × Nat)) :
+    e ∈ asymErrorSetB n d bound ↔ ∃ ix iy iz : List Nat, TripleOk n ix iy iz ∧ e = triple ix iy iz
       ∧ ix.length + iy.length < min (n + 1) d
-      ∧ iz.length < min (n - (ix.length + iy.length) + 1) (ceilDiv ((d - (ix.length + iy.length)) * q) p)
+      ∧ iz.length < min (n - (ix.length + iy.length) + 1) (bound (ix.length + iy.length))
       ∧ ¬ (ix.length + iy.length = 0 ∧ iz.length = 0) := by
-  unfold asymErrorSet
+  unfold asymErrorSetB
   simp only [List.mem_flatMap, List.mem_range]
   constructor
   · rintro ⟨nxy, hnxy, nz, hnz, he⟩
@@ -216,6 +216,13 @@ theorem mem_asymErrorSet (n d p q : Nat) (e : List (Nat × Nat)) :
     refine ⟨ix.length, by omega, [ix, iy, iz], ⟨ix, iy, iz, rfl, cx, ?_, cz⟩, rfl⟩
     have : ix.length + iy.length - ix.length = iy.length := by omega
     rw [this]; exact cy
+
+theorem mem_asymErrorSet (n d p q : Nat) (e : List (Nat × Nat)) :
+    e ∈ asymErrorSet n d p q ↔ ∃ ix iy iz : List Nat, TripleOk n ix iy iz ∧ e = triple ix iy iz
+      ∧ ix.length + iy.length < min (n + 1) d
+      ∧ iz.length < min (n - (ix.length + iy.length) + 1) (ceilDiv ((d - (ix.length + iy.length)) * q) p)
+      ∧ ¬ (ix.length + iy.length = 0 ∧ iz.length = 0) :=
+  mem_asymErrorSetB n d _ e
 
 /-- counts of the string of `triple ix iy iz` -/
 theorem cnt_triple (n : Nat) (ix iy iz : List Nat) (h : TripleOk n ix iy iz) :
@@ -321,6 +328,63 @@ theorem asym_complete (n d p q : Nat) (hp : 0 < p) (s : List Nat) (hl : s.length
     simp only [hix, hiy, hiz, List.mem_filter, List.mem_range, hq, true_and, beq_iff_eq]
     split_ifs <;> omega
 
+/-- **exact characterisation for an arbitrary bound**: a string is generated iff it is a non-identity Pauli
+string with `n_x + n_y < d` and `n_z < bound (n_x + n_y)`. -/
+theorem mem_asymB_strings (n d : Nat) (bound : Nat → Nat) (s : List Nat) :
+    s ∈ (asymErrorSetB n d bound).map (sparseToSyms n) ↔
+      s.length = n ∧ (∀ x ∈ s, x < 4) ∧ cnt 1 s + cnt 2 s + cnt 3 s ≠ 0
+        ∧ cnt 1 s + cnt 2 s < d ∧ cnt 3 s < bound (cnt 1 s + cnt 2 s) := by
+  constructor
+  · intro h
+    rw [List.mem_map] at h
+    obtain ⟨e, he, rfl⟩ := h
+    rw [mem_asymErrorSetB] at he
+    obtain ⟨ix, iy, iz, hok, rfl, h1, h2, h3⟩ := he
+    obtain ⟨c1, c2, c3⟩ := cnt_triple n ix iy iz hok
+    rw [c1, c2, c3]
+    rw [Nat.lt_min] at h1 h2
+    exact ⟨by simp [sparseToSyms_eq], syms_triple_lt n ix iy iz, by omega, h1.2, h2.2⟩
+  · rintro ⟨hl, h4, hne, hd, hb⟩
+    subst hl
+    set f : Nat → Nat := fun q => s.getD q 0 with hf
+    have hsf : s = (List.range s.length).map f := list_eq_map_getD s
+    set ix := (List.range s.length).filter (fun q => f q == 1) with hix
+    set iy := (List.range s.length).filter (fun q => f q == 2) with hiy
+    set iz := (List.range s.length).filter (fun q => f q == 3) with hiz
+    have hok : TripleOk s.length ix iy iz := by
+      refine ⟨List.filter_sublist, List.filter_sublist, List.filter_sublist, ?_, ?_, ?_⟩ <;>
+      · intro i hi hi'
+        simp only [hix, hiy, hiz, List.mem_filter, beq_iff_eq] at hi hi'
+        omega
+    have hcnt : ∀ c, cnt c s = ((List.range s.length).filter (fun q => f q == c)).length := by
+      intro c
+      conv_lhs => rw [hsf]
+      rw [cnt, List.countP_map, List.countP_eq_length_filter]; rfl
+    have hflt : ∀ q, q < s.length → f q < 4 := by
+      intro q hq
+      simp only [hf, List.getD_eq_getElem?_getD, List.getElem?_eq_getElem hq, Option.getD_some]
+      exact h4 _ (List.getElem_mem hq)
+    simp only [hcnt 1, hcnt 2, hcnt 3] at hne hd hb
+    rw [← hix, ← hiy] at hd
+    rw [← hix, ← hiy, ← hiz] at hne hb
+    rw [List.mem_map]
+    refine ⟨triple ix iy iz, ?_, ?_⟩
+    · rw [mem_asymErrorSetB]
+      have hn := three_filters_le (List.range s.length) f
+      rw [List.length_range, ← hix, ← hiy, ← hiz] at hn
+      refine ⟨ix, iy, iz, hok, rfl, ?_, ?_, by omega⟩
+      · rw [Nat.lt_min]; exact ⟨by omega, hd⟩
+      · rw [Nat.lt_min]; exact ⟨by omega, hb⟩
+    · rw [sparseToSyms_eq]
+      conv_rhs => rw [hsf]
+      apply List.map_congr_left
+      intro q hq
+      rw [List.mem_range] at hq
+      rw [val_triple]
+      have := hflt q hq
+      simp only [hix, hiy, hiz, List.mem_filter, List.mem_range, hq, true_and, beq_iff_eq]
+      split_ifs <;> omega
+
 /-! ### no duplicates -/
 
 theorem nodup_flatMap_key {α β : Type} (l : List α) (F : α → List β) (key : β → α) (hl : l.Nodup)
@@ -351,8 +415,8 @@ theorem triple_fst (ix iy iz : List Nat) :
     ∧ ((triple ix iy iz).filter (fun p => p.2 == 3)).map (·.1) = iz := by
   simp [triple, List.filter_map, Function.comp_def]
 
-theorem asymErrorSet_raw_nodup (n d p q : Nat) : (asymErrorSet n d p q).Nodup := by
-  unfold asymErrorSet
+theorem asymErrorSetB_raw_nodup (n d : Nat) (bound : Nat → Nat) : (asymErrorSetB n d bound).Nodup := by
+  unfold asymErrorSetB
   -- keys: n_x + n_y, then n_z, then n_x, read off the (qubit, symbol) list
   apply nodup_flatMap_key _ _ (fun e => (e.filter fun pr => pr.2 == 1 || pr.2 == 2).length) List.nodup_range
   · intro nxy _
@@ -407,11 +471,11 @@ theorem asymErrorSet_raw_nodup (n d p q : Nat) : (asymErrorSet n d p q).Nodup :=
         simp [triple, List.filter_map, Function.comp_def]
       rw [this, hix.2, hiy.2]; omega
 
-/-- **no duplicates**: no string is generated twice -/
-theorem asym_nodup (n d p q : Nat) : ((asymErrorSet n d p q).map (sparseToSyms n)).Nodup := by
-  refine (asymErrorSet_raw_nodup n d p q).map_on ?_
+/-- **no duplicates**: no string is generated twice (whatever the bound on the number of Z's) -/
+theorem asymB_nodup (n d : Nat) (bound : Nat → Nat) : ((asymErrorSetB n d bound).map (sparseToSyms n)).Nodup := by
+  refine (asymErrorSetB_raw_nodup n d bound).map_on ?_
   intro e he e' he' h
-  rw [mem_asymErrorSet] at he he'
+  rw [mem_asymErrorSetB] at he he'
   obtain ⟨ix, iy, iz, hok, rfl, _, _, _⟩ := he
   obtain ⟨ix', iy', iz', hok', rfl, _, _, _⟩ := he'
   rw [sparseToSyms_eq, sparseToSyms_eq] at h
@@ -426,5 +490,8 @@ theorem asym_nodup (n d p q : Nat) : ((asymErrorSet n d p q).map (sparseToSyms n
   have e3 : iz = iz' := by
     rw [← a3, ← b3]; apply List.filter_congr; intro q hq; rw [hv q hq]
   rw [e1, e2, e3]
+
+theorem asym_nodup (n d p q : Nat) : ((asymErrorSet n d p q).map (sparseToSyms n)).Nodup :=
+  asymB_nodup n d _
 
 end Numqi.Qec
